@@ -30,6 +30,8 @@ static bool xc_proc_Shutdown(const xc_opaque *p, long timeout)
 def _uptr(em, base, targs, name):
     if base == "std::unique_ptr" and targs and targs[0].strip().split("::")[-1] in ("SpanProcessor", "LogRecordProcessor"):
         return CT("xc_opaque", 1)      # a processor is identified by its address
+    if base == "std::shared_ptr" and targs and targs[0].strip().split("::")[-1] == "TracerContext":
+        return CT("TracerContext", 1)  # the provider's context: a plain pointer (reference counts not modelled)
     return None
 
 
@@ -41,6 +43,8 @@ def configure(cfg):
     unp = lambda r: (r["node"] if isinstance(r, dict) and r.get("xc_is_ptr") else r)
     cfg.ext_methods["std::unique_ptr::get"] = lambda em, recv, args, n: recv
     cfg.ext_methods["std::unique_ptr::operator->"] = lambda em, recv, args, n: recv
+    cfg.ext_methods["std::shared_ptr::operator->"] = lambda em, recv, args, n: recv
+    cfg.ext_methods["std::__shared_ptr_access::operator->"] = lambda em, recv, args, n: recv
     cfg.ext_q["SpanProcessor::ForceFlush"] = lambda em, node, recv, args: "xc_proc_ForceFlush(%s, %s)" % (em.expr(unp(recv)), em.expr(args[0]))
     cfg.ext_q["LogRecordProcessor::ForceFlush"] = lambda em, node, recv, args: "xc_proc_ForceFlush(%s, %s)" % (em.expr(unp(recv)), em.expr(args[0]))
     cfg.ext_q["SpanProcessor::Shutdown"] = lambda em, node, recv, args: "xc_proc_Shutdown(%s, %s)" % (em.expr(unp(recv)), em.expr(args[0]))
@@ -99,6 +103,19 @@ contracts["TracerContext_Shutdown"] = {"pre":
     "__CPROVER_requires(__CPROVER_is_fresh(self, sizeof(*self)) && g_sd_calls == 0)\n__CPROVER_assigns(g_sd_calls, __CPROVER_object_whole(g_sd_proc))\n"
     "__CPROVER_ensures(g_sd_calls == 1 && g_sd_proc[0] == (unsigned long)self->processor_ && g_ff_calls == __CPROVER_old(g_ff_calls))\n"
     "__CPROVER_ensures((__CPROVER_return_value != 0) == (g_sd_ans[0] != 0))\n"}
+# TracerProvider::ForceFlush / Shutdown -> context_->ForceFlush / Shutdown: the TracerContext call is replaced by its contract (proved below)
+TU_TP = ("tu_tracer_provider", '#include "%s/sdk/src/trace/tracer_context.cc"\n#include "%s/sdk/src/trace/tracer_provider.cc"\n' % (R.core.REPO, R.core.REPO))
+for _n, _cnt, _proc, _ans, _other in (("ForceFlush", "g_ff_calls", "g_ff_proc", "g_ff_ans", "g_sd_calls"), ("Shutdown", "g_sd_calls", "g_sd_proc", "g_sd_ans", "g_ff_calls")):
+    contracts["TracerProvider_" + _n] = {"pre":
+        "__CPROVER_requires(__CPROVER_is_fresh(self, sizeof(*self)) && __CPROVER_is_fresh(self->context_, sizeof(*self->context_)) && %s == 0)\n" % _cnt +
+        "__CPROVER_assigns(g_ff_calls, g_sd_calls, g_all_ok, __CPROVER_object_whole(g_ff_proc), __CPROVER_object_whole(g_sd_proc))\n"
+        "__CPROVER_ensures(%s == 1 && %s[0] == (unsigned long)self->context_->processor_ && %s == __CPROVER_old(%s))\n" % (_cnt, _proc, _other, _other) +
+        "__CPROVER_ensures((__CPROVER_return_value != 0) == (%s[0] != 0))\n" % _ans}
+    _ptp = Proof("TracerProvider_" + _n, [("TracerProvider::" + _n, 1), ("TracerContext::" + _n, 1)], enforce="TracerProvider_" + _n, replace=["TracerContext_" + _n], timeout=300,
+                 desc="the provider call reaches the context (and through its contract the processor) exactly once and reports its answer")
+    _ptp.tu = TU_TP
+    _ptp.force_records = ("sdk::trace::TracerContext",)
+    proofs.append(_ptp)
 TU_LC = ("tu_logger_context", '#include "%s/sdk/src/logs/logger_context.cc"\n' % R.core.REPO)
 for _n in ("ForceFlush", "Shutdown"):
     contracts["LoggerContext_" + _n] = contracts["TracerContext_" + _n]
